@@ -17,13 +17,19 @@ _m(
     "the direct evaluation a fresh Ptychography object at the ground truth goes through 2-3 public reconstruct() calls (1-2 "
     "iterations each, at most 4 batches, independently drawn loss types, reset=False continuation (2/3) or reset=True (1/3)) "
     "with nothing to optimise (no optimiser in mode A, dataset optimiser with lr=0 in mode B; truth probe also set as "
-    "initial_probe so that reset returns to it) and every iter_losses entry is judged; the case then runs an interference step - an unrelated tiny reconstruction "
+    "initial_probe so that reset returns to it) and every iter_losses entry is judged; half of these cases use a validation split (preprocess(val_ratio in "
+    "{0.2, 0.25, 0.34, 0.5}, val_mode grid | random)) and every val_iter_losses entry is judged against the same bound; the "
+    "case then runs an interference step - an unrelated tiny reconstruction "
     "(3x3 scan, 6x6 ROI, S 1..3, random data, adam on a drawn subset of object/probe/dataset) with a drawn set of "
     "NON-default constraints (object: identical_slices (3/4), positivity off, fix_potential_baseline, apply_fov_mask, "
     "gaussian_sigma, tv weights, q_lowpass; probe: orthogonalize_probe off, center_probe, tv_weight; dataset: "
     "descan_shifts_constant, center_scan_positions, descan_tv_weight) given through reconstruct(reset=True, constraints=...), "
     "the models' public constraints setters, or both, optionally followed by a second reset - and builds the SAME problem "
-    "from scratch once more, whose truth loss is judged again.  A separate large-scan stratum (2 cases per quick worker; "
+    "from scratch once more, whose truth loss is judged again.  One case in three (any kind) carries a live-edit history: the Ptychography object is built and "
+    "preprocessed with a stale beam energy (another value of 60/80/120/200/300 keV) and/or slice thicknesses scaled by 0.5 | 2, "
+    "then corrected on the live object through public setters (probe_model.probe_params = {energy} or ptycho.probe_model = "
+    "<new model>; ptycho.slice_thicknesses = [...]), optionally followed by a second preprocess(), before the truth is "
+    "installed and evaluated.  A separate large-scan stratum (2 cases per quick worker; "
     "thorough 12 + 6 per worker) has J = g0 x g1 in 1001..1087 (thorough also 2001..2087) scan points, g0 in 21..48 or "
     "transposed, ROI 6..8 px, S = M = 1, scan steps multiples of 1/8 px in [1.125, 2] with pixel size 0.25/0.5 A (float32-exact "
     "positions, exact ties included), padding 2..6, descan A or B_constant, batches J | J/2 | J/3; only the truth loss is "
@@ -42,7 +48,9 @@ _m(
     "px of, but not exactly on, a half-integer or because they have the shape of an open known finding are recorded as "
     "trivial.  Tracked classes (coverage.classes): tie:half_pixel_position_even/odd_lower_neighbour, "
     "positions:exactly_integer_on_an_axis, modes:installed_out_of_order / installed_strongest_first, "
-    "kind:reconstruct_history, kind:large_scan, scan_points:1001+ / 2001+, interference_ran, history:loss_family_changes_on_continuation / _after_reset, tie_rule_matching_library:*, "
+    "live_edit:energy_via_probe_params|swap_probe_model_multislice|single_slice, live_edit:slice_thicknesses, "
+    "live_edit:followed_by_second_preprocess, history:validation_split_grid|random, "
+    "history:validation_split_with_intensity_loss, validation_losses_judged, kind:reconstruct_history, kind:large_scan, scan_points:1001+ / 2001+, interference_ran, history:loss_family_changes_on_continuation / _after_reset, tie_rule_matching_library:*, "
     "patch_wraps_around_object_edge, roi:odd/even/square/nonsquare, S*, M*, type:*, loss:*, descan:*, batches:*.  distinct = SHA-1 of the canonical JSON "
     "of the whole case (shapes, S, M, type, loss, batch, descan, seed and every drawn parameter).",
     [
@@ -94,6 +102,12 @@ _m(
         "must not share mutable state); the interfering reconstruction itself is outside the claim - an exception inside it is "
         "counted (interference_raised:*; none on the clean tree), not reported; clean tree: truth loss after interference <= "
         "0.006 of the bound",
+        "live edits: the claim is read as 'the forward pipeline of an object whose public parameters are (E, thicknesses) "
+        "reproduces data simulated with (E, thicknesses)', whatever values those parameters had earlier; the corrected values "
+        "are in place before configure()/reconstruct() recompute the propagators exactly as reconstruct() does; this is at the "
+        "edge of the statement (parameter history rather than parameter value) and is stated here as an assumption",
+        "validation losses are data-fidelity losses of held-out scan positions, scaled like batch losses to the full scan, so "
+        "'every data-fidelity loss is zero' is read to include them; clean tree <= 0.007 of the bound",
         "large scans: same truth bound (it scales with J); each costs 0.5-1 s (the reference loops over positions)",
     ],
     workers=(4, 16),
